@@ -127,6 +127,7 @@ func (c *fctx) checkOrder(n ast.Node) {
 					calls = append(calls, x)
 				}
 			}
+			c.t.order07(x, written, &calls)        // [ext:T07] slice arguments written in place by the callee
 			for _, a := range c.t.writtenArgs(x) { // in-out slice arguments (trans_func.go)
 				if o, _ := c.t.rootObj(a); o != nil {
 					written[o] = true
@@ -176,7 +177,7 @@ func (c *fctx) checkOrder(n ast.Node) {
 func (c *fctx) taintCalls(n ast.Node, en *env) *env {
 	ast.Inspect(n, func(m ast.Node) bool {
 		if x, ok := m.(*ast.CallExpr); ok {
-			if fn, _ := c.t.calleeOf(x); fn != nil {
+			if fn, _ := c.t.calleeOf(x); fn != nil && !c.t.noRetain07(fn) { // [ext:T07] not: callees that can neither keep nor return it
 				for i, a := range x.Args {
 					if fi := c.t.funcs[fn]; fi != nil && i < len(fi.noesc) && fi.noesc[i] {
 						continue // the callee neither keeps nor returns this slice (trans_func.go)
@@ -451,6 +452,7 @@ func (c *fctx) retTerm(en *env, vs []string) string {
 	for _, g := range c.t.ordered20(c.fi.gwrites) { // [ext:T20] written package-level state is returned
 		parts = append(parts, c.globalName20(g, en, c.fi.decl))
 	}
+	parts = append(parts, c.outNames07(en)...) // [ext:T07] slice parameters written in place are returned
 	parts = append(parts, c.outNames08(en)...) // [ext:T08] output parameters
 	parts = append(parts, c.outNames15(en)...) // [ext:T15] slice parameters written in place are returned
 	parts = append(parts, c.outNames03(en)...) // [ext:T03] slice parameters written in place
@@ -712,7 +714,7 @@ func (c *fctx) rangeStmt(x *ast.RangeStmt, en *env, lc *lctx, next kont) string 
 		}
 		set := map[types.Object]bool{}
 		t.assigned(x.Body, set)
-		if o, _ := t.rootObj(x.X); o != nil && set[o] {
+		if o, _ := t.rootObj(x.X); o != nil && set[o] && c.liveRange07(x, en) == "" { // [ext:T07] unless it is only written in place
 			t.fail(x, "range with a value variable over a slice that the body assigns")
 		}
 	}
@@ -774,8 +776,11 @@ func (c *fctx) rangeStmt(x *ast.RangeStmt, en *env, lc *lctx, next kont) string 
 				if id, ok := x.Value.(*ast.Ident); ok && id.Name == "_" {
 					return rest()
 				}
-				ev := c.fresh("v")
-				return fmt.Sprintf("do %s <- %s %s %s;;\n%s", ev, getFn08(t.exprType(x.X)), rng, idx, bindVar(x.Value, ev, rest)) // [ext:T08]
+				ev, from := c.fresh("v"), rng
+				if live := c.liveRange07(x, en); live != "" && set[t.info.Uses[ast.Unparen(x.X).(*ast.Ident)]] { // [ext:T07] the body writes the slice in place: read the current one
+					from = live
+				}
+				return fmt.Sprintf("do %s <- %s %s %s;;\n%s", ev, getFn08(t.exprType(x.X)), from, idx, bindVar(x.Value, ev, rest)) // [ext:T08]
 			}))
 			return b.String()
 		}
@@ -816,7 +821,7 @@ func (t *Translator) emitFunc(fi *funcInfo) string {
 		var name string
 		en, name = c.declare(en, p, g)
 		params = append(params, fmt.Sprintf("(%s : %s)", name, g.coq()))
-		if g.k == kSlice && !(i < len(fi.noesc) && fi.noesc[i]) && !fi.isOut08(i) && !fi.isOut15(i) && !t.isOut03(fi, p) { // [func] noesc; [ext:T08] not an output parameter; [ext:T15] / [ext:T03] written in place: returned instead
+		if g.k == kSlice && !(i < len(fi.noesc) && fi.noesc[i]) && !fi.isOut08(i) && !fi.isOut15(i) && !t.isOut03(fi, p) && !fi.isOut07(i) { // [func] noesc; [ext:T08] not an output parameter; [ext:T15] / [ext:T03] / [ext:T07] written in place: returned instead
 			en = en.share(name) // the caller still holds the array
 		}
 	}
@@ -848,6 +853,8 @@ func (t *Translator) emitFunc(fi *funcInfo) string {
 	for range fi.outs15 {                        // [ext:T15]
 		stateT = append(stateT, "list Z")
 	}
+	stateT = append(stateT, t.outTypes07(fi)...) // [ext:T07]
+	t.checkOuts07(fi)
 	stateT = append(stateT, t.outTypes03(fi)...) // [ext:T03]
 	t.checkOuts15(fi)                            // [ext:T15]
 	if len(stateT) > 0 {
